@@ -228,3 +228,18 @@ for tag, mn, argt in (('fd', '_ZN4CDNS12CdnsExporterC1IiEERNS_12FilePreambleERKT
                       post='  if (g_exc != 0) { CANARY("constructor failure reachable"); }',
                       note='a new exporter satisfies the exporter invariant: nothing emitted, no block written, active parameter set 0 exists (a preamble without parameter sets is refused), '
                            'the block is empty and armed with the content of parameter set 0'))
+
+# ---------------------------------------------------------------- the counters the exporter reports (C12): they are the counts of the block being filled and of the blocks written
+from block_units import _CNT_REQ, _SZ_STUBS
+_B = '$this->m_block.'
+for _fn, _callee, _ens in (('get_block_item_count', 'blk.get_item_count', '$ret == %sm_query_responses.n + %sm_address_event_counts.n + %sm_malformed_messages.n' % (_B, _B, _B)),
+                           ('get_block_qr_count', 'blk.get_qr_count', '$ret == %sm_query_responses.n' % _B),
+                           ('get_block_aec_count', 'blk.get_aec_count', '$ret == %sm_address_event_counts.n' % _B),
+                           ('get_block_mm_count', 'blk.get_mm_count', '$ret == %sm_malformed_messages.n' % _B),
+                           ('get_blocks_written_count', None, '$ret == $this->m_blocks_written')):
+    UNITS.append(Unit('exp.' + _fn, (EXP + _fn, None),
+                      contract=_CNT_REQ.replace('$this->m_', '$this->m_block.m_') + '__CPROVER_ensures(g_exc == 0 && (%s))\n' % _ens,
+                      prelude=P, pre_c=PRE2, extern_records=EXT, stubs=_SZ_STUBS, replace=[_callee] if _callee else [],
+                      setup='  static struct CdnsExporter obj;\n  __CPROVER_assume(obj.m_block.m_query_responses.n < (1UL << 60) && obj.m_block.m_address_event_counts.n < (1UL << 60) && obj.m_block.m_malformed_messages.n < (1UL << 60));\n',
+                      args=['&obj'], props=['C12'], timeout=300,
+                      note='reported counter = the corresponding count of the block being filled / the number of blocks written to the current output'))
